@@ -75,7 +75,7 @@ class Compiled:
     try:
       formatted = quiet(self.prog.FormattedPredicateSql, pred)
       ex = self.prog.execution
-      return ('script', ex.preamble, list(ex.defines_and_exports), ex.main_predicate_sql, formatted)
+      return ('script', ex.preamble, list(ex.defines_and_exports), ex.main_predicate_sql, formatted, ex)
     except BaseException as e:
       if isinstance(e, (KeyboardInterrupt,)): raise
       return classify_exception(e)
@@ -103,13 +103,31 @@ class Db:
       if rows:
         self.con.executemany('insert into %s values (%s)' % (t, ','.join('?' * len(cols))), [tuple(enc(v) for v in r) for r in rows])
 
-  def run(self, script):
-    """script: outcome of Compiled.sql. -> ('rows', cols, rows) | ('sqlerr', msg)"""
-    _, preamble, defines, main, _ = script
+  def run(self, script, via_concertina=None):
+    """script: outcome of Compiled.sql. -> ('rows', cols, rows) | ('sqlerr', msg).
+    Single-statement plans are executed like `logica.py run` (preamble, defines_and_exports, main); plans with
+    iterations (or via_concertina=True) through the real concertina_lib.ExecuteLogicaProgram like run_in_terminal."""
+    _, preamble, defines, main, _, ex = script
+    self.statements = []
     try:
+      try: self.con.execute('DETACH DATABASE logica_test')
+      except Exception: pass
+      if via_concertina or (via_concertina is None and ex.iterations):
+        cl = M('common.concertina_lib')
+        con = self.con; rec = self.statements
+        def runner(sql, engine, is_final):
+          rec.append(sql)
+          if is_final:
+            cur = con.execute(sql)
+            return [d[0] for d in cur.description], cur.fetchall()
+          con.executescript(sql)
+        with contextlib.redirect_stdout(io.StringIO()):
+          res = cl.ExecuteLogicaProgram([ex], runner, 'sqlite', display_mode='silent')
+        cols, rows = res[ex.main_predicate]
+        return ('rows', list(cols), list(rows))
       cur = self.con.cursor()
       for s in [preamble] + defines:
-        if s and s.strip(): cur.executescript(s)
+        if s and s.strip(): cur.executescript(s); self.statements.append(s)
       cur.execute(main)
       cols = [d[0] for d in cur.description]
       return ('rows', cols, cur.fetchall())
